@@ -258,54 +258,99 @@ def _is_int(v):
   return type(v) is int  # pylint: disable=unidiomatic-typecheck
 
 
-def match_dp(m, node):
+def why_not_dp(m, node):
+  """None if `node` is a valid decision for decision point m, else a reason."""
   value, children = node
   kind = m[0]
   if kind == 'float':
-    return (type(value) is float and m[1] <= value <= m[2]  # pylint: disable=unidiomatic-typecheck
-            and not children)
+    if type(value) is not float:  # pylint: disable=unidiomatic-typecheck
+      return 'float-wrong-type'
+    if value < m[1]:
+      return 'float-below-min'
+    if value > m[2]:
+      return 'float-above-max'
+    if children:
+      return 'float-with-children'
+    return None
   if kind == 'custom':
-    return isinstance(value, str)     # children: user defined.
+    return None if isinstance(value, str) else 'custom-wrong-type'
   _, k, cands, distinct, srt, _, _ = m
   n = len(cands)
+
+  def index_reason(v):
+    if v is None:
+      return 'index-missing'
+    if not _is_int(v):
+      return 'index-wrong-type'
+    if v < 0:
+      return 'negative-index'
+    if v >= n:
+      return 'index-too-large'
+    return None
+
   if k == 1:
-    return (_is_int(value) and 0 <= value < n
-            and match_space_children(cands[value], children))
-  if value is not None or len(children) != k:
-    return False
+    return index_reason(value) or why_not_children(cands[value], children)
+  if value is not None:
+    return 'value-on-multi-choice-container'
+  if len(children) != k:
+    return 'wrong-number-of-choices'
   vals = [c[0] for c in children]
-  if not all(_is_int(v) and 0 <= v < n for v in vals):
-    return False
+  for v in vals:
+    reason = index_reason(v)
+    if reason:
+      return reason
   if distinct and len(set(vals)) != k:
-    return False
+    return 'duplicate-choices'
   if srt and any(vals[i] > vals[i + 1] for i in range(k - 1)):
-    return False
-  return all(match_space_children(cands[c[0]], c[1]) for c in children)
+    return 'unsorted-choices'
+  for c in children:
+    reason = why_not_children(cands[c[0]], c[1])
+    if reason:
+      return reason
+  return None
 
 
-def match_space_children(m, children):
+def why_not_children(m, children):
+  """None if `children` represent space m below a chosen candidate."""
   elems = m[1]
   if not elems:
-    return not children
+    return 'children-under-constant-candidate' if children else None
   if len(elems) == 1:
     e = elems[0]
     if e[0] == 'choices' and e[1] > 1:
-      return match_dp(e, (None, children))
-    return len(children) == 1 and match_dp(e, children[0])
-  return (len(children) == len(elems)
-          and all(match_dp(e, c) for e, c in zip(elems, children)))
+      return why_not_dp(e, (None, children))
+    if not children:
+      return 'missing-children'
+    if len(children) > 1:
+      return 'too-many-children'
+    return why_not_dp(e, children[0])
+  if len(children) != len(elems):
+    return 'wrong-number-of-elements'
+  for e, c in zip(elems, children):
+    reason = why_not_dp(e, c)
+    if reason:
+      return reason
+  return None
+
+
+def why_not(m, node):
+  """None iff tree `node` is a member of spec model m, else the reason."""
+  if m[0] != 'space':
+    return why_not_dp(m, node)
+  elems = m[1]
+  if not elems:
+    if node[0] is not None:
+      return 'value-on-constant-space'
+    return 'children-on-constant-space' if node[1] else None
+  if len(elems) == 1:
+    return why_not_dp(elems[0], node)
+  if node[0] is not None:
+    return 'value-on-space-container'
+  return why_not_children(m, node[1])
 
 
 def accepts(m, node):
-  """True iff tree `node` is a member of spec model m."""
-  if m[0] != 'space':
-    return match_dp(m, node)
-  elems = m[1]
-  if not elems:
-    return node == (None, ())
-  if len(elems) == 1:
-    return match_dp(elems[0], node)
-  return node[0] is None and match_space_children(m, node[1])
+  return why_not(m, node) is None
 
 
 def touches_custom_children(m, node):
@@ -911,31 +956,51 @@ def _check_accept(rec, m, spec, api, kind, tree):
   actual = shape(dna)      # after constructor normalisation
   if touches_custom_children(m, actual):
     return
-  want = accepts(m, actual)
+  reason = why_not(m, actual)
+  want = reason is None
+  bound = None
   if api == 'validate':
     rej, text = raises(lambda: spec.validate(dna))
     call = f'spec.validate({dsrc(actual)})'
   elif api == 'bind':
     rej, text = raises(lambda: dna.use_spec(spec))
-    call = f'{dsrc(actual)}.use_spec(spec)'
+    call = f'd = {dsrc(actual)}.use_spec(spec)'
+    bound = dna
   else:
-    rej, text = raises(lambda: pg.DNA(actual[0], [mk(c) for c in actual[1]],
-                                      spec=spec))
-    call = (f'D({actual[0]!r}, [' + ', '.join(dsrc(c) for c in actual[1])
+    box = []
+    rej, text = raises(lambda: box.append(
+        pg.DNA(actual[0], [mk(c) for c in actual[1]], spec=spec)))
+    bound = box[0] if box else None
+    call = (f'd = D({actual[0]!r}, [' + ', '.join(dsrc(c) for c in actual[1])
             + '], spec=spec)')
     api = 'bind'
+    if m == C:
+      # `spec=` with a constant root space is a separate input class: one id.
+      ok = (bound is not None and bound.spec is not None) if want else rej
+      rec.case('bind-ctor[constant-root-space]/spec-honoured',
+               (src(m), actual), ok,
+               f'DNA({actual!r}, spec=<constant space>): '
+               + ('member left unbound (spec is None)' if want else
+                  f'non-member accepted ({reason})'),
+               wit(m, (f'{call}\nassert d.spec is not None' if want else
+                       'try:\n  ' + call + '\nexcept Exception: pass\n'
+                       'else: raise AssertionError("non-member accepted")')))
+      return
   ok = (rej != want)
-  exp = 'expect-accept' if want else 'expect-reject'
   if want:
+    cid = f'{api}/accept-member/{kind if kind == "member" else "edited"}'
     w = wit(m, f'{call}   # member: must be accepted')
+    msg = f'member {actual!r} rejected: {text}'
   else:
+    cid = f'{api}/reject/{reason}'
     w = wit(m, 'try:\n  ' + call + '\nexcept Exception: pass\n'
-            'else: raise AssertionError("non-member accepted")')
-  rec.case(f'{api}/{kind}/{exp}', (src(m), actual), ok,
-           (f'non-member {actual!r} accepted' if not want else
-            f'member {actual!r} rejected: {text}'), w)
-  if api == 'bind' and want and not rej and kind == 'member':
-    pass
+            f'else: raise AssertionError("non-member accepted ({reason})")')
+    msg = f'non-member {actual!r} accepted ({reason}; edit: {kind})'
+  rec.case(cid, (src(m), actual), ok, msg, w)
+  if want and not rej and bound is not None:
+    rec.case(f'{api}/spec-attached', (src(m), actual), bound.spec is not None,
+             'DNA.spec is None after binding a member',
+             wit(m, f'{call}\nassert d.spec is not None'))
 
 
 def drv_membership(tier, seed):
